@@ -955,6 +955,11 @@ MUTANTS = [
         "        my_head = (my_head + MaxCapacity - 1) % MaxCapacity;", "        my_head = (my_head - 1) % MaxCapacity;")]),
     dict(name='c05-pop-front-steps-by-two', prop='C05', clause='D7', edits=[(PT_H,
         "        my_tail = (my_tail + 1) % MaxCapacity;", "        my_tail = (my_tail + 2) % MaxCapacity;")]),
+    dict(name='c05-2d-split-dimension-by-rounded-ratio-only', prop='C05', clause='D1', edits=[('include/oneapi/tbb/blocked_range2d.h', '        if ( !my_rows.is_divisible() || (my_cols.is_divisible() &&\n             my_rows.size()*double(my_cols.grainsize()) < my_cols.size()*double(my_rows.grainsize())) ) {', '        if ( my_rows.size()*double(my_cols.grainsize()) < my_cols.size()*double(my_rows.grainsize()) ) {')]),
+    dict(name='c05-2d-rows-chosen-although-not-divisible', prop='C05', clause='D1', edits=[('include/oneapi/tbb/blocked_range2d.h', '        if ( !my_rows.is_divisible() || (my_cols.is_divisible() &&\n             my_rows.size()*double(my_cols.grainsize()) < my_cols.size()*double(my_rows.grainsize())) ) {', '        if ( my_cols.is_divisible() &&\n             my_rows.size()*double(my_cols.grainsize()) < my_cols.size()*double(my_rows.grainsize()) ) {')]),
+    dict(name='c05-3d-split-dimension-by-rounded-ratio-only', prop='C05', clause='D1', edits=[('include/oneapi/tbb/blocked_range3d.h', '        return !first.is_divisible() || (second.is_divisible() &&\n               first.size()*double(second.grainsize()) < second.size()*double(first.grainsize()));', '        return first.size()*double(second.grainsize()) < second.size()*double(first.grainsize());')]),
+    dict(name='c05-nd-comparator-by-rounded-ratio-only', prop='C05', clause='D1', edits=[('include/oneapi/tbb/blocked_nd_range.h', '            return second.is_divisible() && (!first.is_divisible() ||\n                   first.size() * double(second.grainsize()) < second.size() * double(first.grainsize()));', '            return (first.size() * double(second.grainsize()) < second.size() * double(first.grainsize()));')]),
+    dict(name='c05-nd-comparator-ranks-a-non-divisible-dimension-up', prop='C05', clause='D1', edits=[('include/oneapi/tbb/blocked_nd_range.h', '            return second.is_divisible() && (!first.is_divisible() ||\n                   first.size() * double(second.grainsize()) < second.size() * double(first.grainsize()));', '            return !first.is_divisible() ||\n                   first.size() * double(second.grainsize()) < second.size() * double(first.grainsize());')]),
     # ---------------------------------------------------------------- C06
     dict(name='c06-join-swapped', prop='C06', clause='D1', edits=[
         (PR_H, "            left_body.join(*zombie_space.begin());", "            zombie_space.begin()->join(left_body);")]),
@@ -1221,6 +1226,7 @@ MUTANTS = [
         (CHM_H, "    bool find( const_accessor &result, const Key &key ) const {\n        result.release();\n", "    bool find( const_accessor &result, const Key &key ) const {\n")]),
     dict(name='c10-emplace-releases-after-lookup', prop='C10', clause='D4', edits=[
         (CHM_H, "    bool generic_emplace( Accessor && result, Args &&... args ) {\n        result.release();\n", "    bool generic_emplace( Accessor && result, Args &&... args ) {\n        if (this->my_size.load(std::memory_order_relaxed) != 0) result.release();\n")]),
+    dict(name='c10-growth-after-insert-unguarded', prop='C10', clause='D5', edits=[(CHM_H, '#if TBB_USE_EXCEPTIONS\n            try\n#endif\n            {\n                this->enable_segment( grow_segment );\n            }\n#if TBB_USE_EXCEPTIONS\n            catch(...) {}\n#endif\n', '            this->enable_segment( grow_segment );\n')]),
     # ---------------------------------------------------------------- C11
     dict(name='c11-int-delta-regression', prop='C11', clause='D6', edits=[
         (CV_H, "        if (old_size < new_size) {\n            return internal_grow(old_size, new_size, args...);\n        }",
@@ -1652,6 +1658,8 @@ MUTANTS += [
 ]
 
 BENIGN = [
+    dict(name='c05-b-2d-ratio-comparison-in-a-local', prop='C05', edits=[('include/oneapi/tbb/blocked_range2d.h', '        if ( !my_rows.is_divisible() || (my_cols.is_divisible() &&\n             my_rows.size()*double(my_cols.grainsize()) < my_cols.size()*double(my_rows.grainsize())) ) {', '        const bool cols_larger = my_rows.size()*double(my_cols.grainsize()) < my_cols.size()*double(my_rows.grainsize());\n        if ( !my_rows.is_divisible() || (my_cols.is_divisible() && cols_larger) ) {')]),
+    dict(name='c10-b-guarded-growth-through-a-local', prop='C10', edits=[(CHM_H, '#if TBB_USE_EXCEPTIONS\n            try\n#endif\n            {\n                this->enable_segment( grow_segment );\n            }\n#if TBB_USE_EXCEPTIONS\n            catch(...) {}\n#endif\n', '#if TBB_USE_EXCEPTIONS\n            try\n#endif\n            {\n                const segment_index_type seg = grow_segment;\n                this->enable_segment( seg );\n            }\n#if TBB_USE_EXCEPTIONS\n            catch(...) {}\n#endif\n')]),
     dict(name='c20-b-resume-exemption-through-a-local', prop='C20', edits=[('src/tbb/task_stream.h', '            if( result && (task_accessor::isolation(*result) == isolation || task_accessor::is_resume_task(*result)) ) {', '            const bool resume_task = result && task_accessor::is_resume_task(*result);\n            if( result && (resume_task || task_accessor::isolation(*result) == isolation) ) {')]),
     dict(name='c16-b-resume-exemption-through-a-local', prop='C16', edits=[('src/tbb/task_stream.h', '            if( result && (task_accessor::isolation(*result) == isolation || task_accessor::is_resume_task(*result)) ) {', '            const bool resume_task = result && task_accessor::is_resume_task(*result);\n            if( result && (resume_task || task_accessor::isolation(*result) == isolation) ) {')]),
     dict(name='c15-b-wrap-test-against-the-maximum', prop='C15', edits=[('include/oneapi/tbb/flow_graph.h', '        if (tag + 1 == 0) {\n            // the largest sequence number has no successor: tag+1 would wrap, the tail would not cover the item\n            // and it would be written over a buffered one\n            op->status.store(FAILED, std::memory_order_release);\n            return false;\n        }\n', '        if (tag == std::size_t(-1)) {\n            // the largest sequence number has no successor: tag+1 would wrap, the tail would not cover the item\n            // and it would be written over a buffered one\n            op->status.store(FAILED, std::memory_order_release);\n            return false;\n        }\n')]),
